@@ -1,9 +1,13 @@
 /-
   Driver/Batcher.lean — line-protocol front end of Model/Batcher.lean (properties C06, C07, C08, C09).
 
-  stream `batcher`:   (b CAP (sp I…) (ops OP…))
+  stream `batcher`:   (b CAP (sp I…) (win W…) (ops OP…))
       CAP  channel capacity; `sp` = 0-based indices of the `on_batch` invocations that panic synchronously (in the
-      closure, before a future exists); OP (interpreted in order) ::=
+      closure, before a future exists); W ::= (c I SOP…) | (w J SOP…): sender-side ops (s, t, f, e, ds) performed
+      INSIDE the receiver's lock-free windows — `c I` right before the I-th `on_batch` invocation (model: in state
+      `taken` before `rxBegin`, resp. in `retryWait` before `rxRetryWaited`), `w J` right before the J-th `wait`
+      invocation (model: before the label that requests the wait). This exercises the interleavings in which
+      sender steps land between the swap-out of a batch and its hand-over. OP (interpreted in order) ::=
         (s X) send | (t X) try_send | (f W) when_flushed | (e W) when_empty | (ds) drop Sender | (dr) drop Receiver
         (poll)                      poll the receiver future
         (ok) (fail) (retry X…) (pa) release the processing gate with Ok / Err(no_retry) / Err(retry(remainder)) /
@@ -15,7 +19,8 @@
       Output: one token per op `<tag>{,<event>}|<queue_length>/<queue_full_truncated>` and a final token
       `F:<receiver state>,<counters>`; events are `!W` (flush callback W ran), `?W` (when_empty callback W ran),
       `~W` (flush callback W dropped unrun),
-      `c(X.Y.Z)` (on_batch called with [X,Y,Z]), `w<ns>` (wait requested), `done` (exec returned).
+      `c(X.Y.Z)` (on_batch called with [X,Y,Z]), `w<ns>` (wait requested), `done` (exec returned), `+<tag>` (a
+      window op and its result, after the events it caused).
       An op that is not enabled (sender op without Sender, gate release without that gate, …) prints tag `x`.
 
   stream `batcher_blocking`: the decision tables of the blocking entry points, see `runBlocking`.
@@ -66,8 +71,59 @@ def events (s s' : St) : List String :=
 def micro (cfg : Cfg) (s : St) (l : Label) : Option (St × List String) :=
   (step cfg s l).map fun s' => (s', events s s')
 
+def senderTag (cfg : Cfg) (s : St) : Label → String
+  | .send _ => "s"
+  | .trySend x => match (trySend cfg s x).2 with
+    | .ok => "t=ok"
+    | .full y => s!"t=full({y})"
+    | .closed => "t=closed"
+  | .whenFlushed _ => "f"
+  | .whenEmpty _ => "e"
+  | .dropSender => "ds"
+  | .dropReceiver => "dr"
+  | _ => "?"
+
+/-- Sender ops performed inside a window: each is one sender label; output = its events, then `+<tag>`. -/
+def payload (cfg : Cfg) : St → List Label → List String → St × List String
+  | s, [], acc => (s, acc)
+  | s, l :: ls, acc =>
+    match micro cfg s l with
+    | none => payload cfg s ls (acc ++ ["+x"])
+    | some (s', e) => payload cfg s' ls (acc ++ e ++ [s!"+{senderTag cfg s l}"])
+
+structure Windows where
+  calls : List (Nat × List Label)
+  waits : List (Nat × List Label)
+
+/-- A receiver label with the window ops that the real code would execute inside it: if the label invokes
+    `on_batch` (resp. `wait`) for the I-th (J-th) time and a window is scripted for that index, the window's
+    sender labels are executed FIRST (from the state before the label — they commute with the callbacks the label
+    fires, which touch ghost history only), and the output is ordered as the code produces it: callbacks, window
+    ops, then the call / wait. -/
+def rxStep (cfg : Cfg) (win : Windows) (s : St) (l : Label) : Option (St × List String) :=
+  match step cfg s l with
+  | none => none
+  | some s1 =>
+    let w : Option (List Label) :=
+      if s1.calls.length > s.calls.length then win.calls.lookup s.calls.length
+      else if s1.waits.length > s.waits.length then win.waits.lookup s.waits.length
+      else none
+    match w with
+    | none => some (s1, events s s1)
+    | some ops =>
+      let (s0, pev) := payload cfg s ops []
+      match step cfg s0 l with
+      | none => some (s0, pev ++ ["stuck!"])
+      | some s2 =>
+        some (s2,
+          (s2.firedTake.drop s0.firedTake.length).map (fun w => s!"?{w}")
+          ++ (s2.fired.drop s0.fired.length).map (fun w => s!"!{w}")
+          ++ pev
+          ++ (s2.calls.drop s0.calls.length).map (fun b => s!"c({showItems b})")
+          ++ (s2.waits.drop s0.waits.length).map (fun d => s!"w{d}"))
+
 /-- Run the receiver from where it is to its next await point (or its return). -/
-def advance (cfg : Cfg) (sp : List Nat) : Nat → St → List String → St × List String
+def advance (cfg : Cfg) (sp : List Nat) (win : Windows) : Nat → St → List String → St × List String
   | 0, s, evs => (s, evs ++ ["fuel!"])
   | fuel + 1, s, evs =>
     let next : Option Label :=
@@ -79,57 +135,65 @@ def advance (cfg : Cfg) (sp : List Nat) : Nat → St → List String → St × L
     match next with
     | none => (s, evs)
     | some l =>
-      match micro cfg s l with
+      match rxStep cfg win s l with
       | none => (s, evs ++ ["stuck!"])
-      | some (s', e) => advance cfg sp fuel s' (evs ++ e)
+      | some (s', e) => advance cfg sp win fuel s' (evs ++ e)
 
 def tok (tag : String) (evs : List String) (s : St) : String :=
   ",".intercalate (tag :: evs) ++ s!"|{s.pending.length}/{s.mTruncated}"
 
-/-- Interpret one op; returns the new state and the output token. `started` = the future has been polled. -/
-def runOp (cfg : Cfg) (sp : List Nat) (s : St) : Op → St × String
+/-- Interpret one op; returns the new state and the output token. -/
+def runOp (cfg : Cfg) (sp : List Nat) (win : Windows) (s : St) : Op → St × String
   | .lab l =>
-    let tag := match l with
-      | .send _ => "s"
-      | .trySend x => match (trySend cfg s x).2 with
-        | .ok => "t=ok"
-        | .full y => s!"t=full({y})"
-        | .closed => "t=closed"
-      | .whenFlushed _ => "f"
-      | .whenEmpty _ => "e"
-      | .dropSender => "ds"
-      | .dropReceiver => "dr"
-      | _ => "?"
     match micro cfg s l with
     | none => (s, tok "x" [] s)
-    | some (s', e) => (s', tok tag e s')
+    | some (s', e) => (s', tok (senderTag cfg s l) e s')
   | .poll =>
     match s.rx with
     | .done => (s, tok "x" [] s)
-    | .idle => let (s', e) := advance cfg sp 16 s []; (s', tok "r" e s')
+    | .idle => let (s', e) := advance cfg sp win 16 s []; (s', tok "r" e s')
     | _ => (s, tok "r" [] s)
   | .out o =>
     match s.rx with
     | .processing _ _ _ =>
-      match micro cfg s (.rxOutcome o) with
+      match rxStep cfg win s (.rxOutcome o) with
       | none => (s, tok "x" [] s)
-      | some (s1, e1) => let (s', e) := advance cfg sp 16 s1 e1; (s', tok "r" e s')
+      | some (s1, e1) => let (s', e) := advance cfg sp win 16 s1 e1; (s', tok "r" e s')
     | _ => (s, tok "x" [] s)
   | .waited =>
     match s.rx with
     | .retryWait _ _ _ =>
-      match micro cfg s .rxRetryWaited with
+      match rxStep cfg win s .rxRetryWaited with
       | none => (s, tok "x" [] s)
-      | some (s1, e1) => let (s', e) := advance cfg sp 16 s1 e1; (s', tok "r" e s')
+      | some (s1, e1) => let (s', e) := advance cfg sp win 16 s1 e1; (s', tok "r" e s')
     | .idleWait =>
-      match micro cfg s .rxIdleWaited with
+      match rxStep cfg win s .rxIdleWaited with
       | none => (s, tok "x" [] s)
-      | some (s1, e1) => let (s', e) := advance cfg sp 16 s1 e1; (s', tok "r" e s')
+      | some (s1, e1) => let (s', e) := advance cfg sp win 16 s1 e1; (s', tok "r" e s')
     | _ => (s, tok "x" [] s)
 
-def runOps (cfg : Cfg) (sp : List Nat) : St → List Op → List String → St × List String
+def runOps (cfg : Cfg) (sp : List Nat) (win : Windows) : St → List Op → List String → St × List String
   | s, [], acc => (s, acc.reverse)
-  | s, o :: os, acc => let (s', t) := runOp cfg sp s o; runOps cfg sp s' os (t :: acc)
+  | s, o :: os, acc => let (s', t) := runOp cfg sp win s o; runOps cfg sp win s' os (t :: acc)
+
+def senderLabel? (x : Sexp) : Option Label :=
+  match op? x with
+  | some (.lab .dropReceiver) => none
+  | some (.lab l) => some l
+  | _ => none
+
+def window? : Sexp → Option (Bool × Nat × List Label)
+  | .list (.atom "c" :: i :: ops) => do pure (true, ← i.nat?, ← ops.mapM senderLabel?)
+  | .list (.atom "w" :: i :: ops) => do pure (false, ← i.nat?, ← ops.mapM senderLabel?)
+  | _ => none
+
+def windows? (ws : List Sexp) : Option Windows := do
+  let l ← ws.mapM window?
+  let calls := (l.filter (·.1)).map (·.2)
+  let waits := (l.filter (fun w => !w.1)).map (·.2)
+  -- an index may be given at most once per kind
+  if (calls.map (·.1)).eraseDups.length != calls.length ∨ (waits.map (·.1)).eraseDups.length != waits.length then none
+  else pure ⟨calls, waits⟩
 
 def rxName (s : St) : String :=
   match s.rx with
@@ -160,11 +224,11 @@ structure Proj where
   queue : Bool
   counters : Bool
 
-def projFull : Proj := ⟨"!?~cwdP", true, true, true⟩
-def proj06 : Proj := ⟨"cdP", true, true, false⟩
+def projFull : Proj := ⟨"!?~cwdP+", true, true, true⟩
+def proj06 : Proj := ⟨"cdP+", true, true, false⟩
 def proj07 : Proj := ⟨"!~cP", false, false, false⟩
 def proj08 : Proj := ⟨"!?~cwdP", false, false, true⟩
-def proj09 : Proj := ⟨"", true, true, false⟩
+def proj09 : Proj := ⟨"+", true, true, false⟩
 
 def projectTok (p : Proj) (tok : String) : String :=
   if tok.startsWith "F:" then
@@ -183,13 +247,16 @@ def projectTok (p : Proj) (tok : String) : String :=
 
 def runBatcherProj (p : Proj) (line : String) : String :=
   match Sexp.parse line with
-  | some (.list [.atom "b", cap, .list (.atom "sp" :: sp), .list (.atom "ops" :: ops)]) =>
-    match cap.nat?.filter (· ≥ 1), nats? sp, ops.mapM op? with
-    | some cap, some sp, some ops =>
+  | some (.list [.atom "b", cap, .list (.atom "sp" :: sp), .list (.atom "win" :: ws), .list (.atom "ops" :: ops)]) =>
+    match cap.nat?.filter (· ≥ 1), nats? sp, windows? ws, ops.mapM op? with
+    | some cap, some sp, some win, some ops =>
       let cfg := Cfg.real cap
-      let (s, toks) := runOps cfg sp init ops []
-      " ".intercalate ((toks ++ [finalTok s]).map (projectTok p)) ++ "\t" ++ signature s ops.length
-    | _, _, _ => "bad-op"
+      let (s, toks) := runOps cfg sp win init ops []
+      let trace := toks ++ [finalTok s]
+      let winHit := trace.any fun t => (t.splitOn ",+").length > 1
+      " ".intercalate (trace.map (projectTok p)) ++ "\t" ++ signature s ops.length
+        ++ (if winHit then ",win" else "")
+    | _, _, _, _ => "bad-op"
   | _ => "bad-op"
 
 def runBatcher : String → String := runBatcherProj projFull
